@@ -10,6 +10,7 @@ import RoModel.Drivers.Cancel
 import RoModel.Drivers.Overlap
 import RoModel.Drivers.Timed
 import RoModel.Drivers.Plugin
+import RoModel.Drivers.Resub
 namespace Ro.Driver
 
 def handlers : List (String × (Case → String)) := [
@@ -20,7 +21,8 @@ def handlers : List (String × (Case → String)) := [
   ("overlap", Drivers.Overlap.run),
   ("leak", Drivers.Cancel.runLeak),
   ("timed", Drivers.Timed.run),
-  ("plugin", Drivers.Plugin.run)
+  ("plugin", Drivers.Plugin.run),
+  ("resub", Drivers.Resub.run)
 ]
 
 def runCase (c : Case) : String :=
